@@ -153,6 +153,19 @@ func readAllGuard(r io.Reader, t *readTrace) {
 		if err != nil {
 			t.Err = errClass(err)
 			t.Msg = err.Error()
+			// a caller may well call Read again after an error or EOF: that must not panic and
+			// must not deliver data after a clean end
+			for k := 0; k < 2; k++ {
+				n2, err2 := r.Read(p)
+				if n2 > len(p) {
+					t.Err = "Panic"
+					t.Panic = "n > len(p)"
+				}
+				if err == io.EOF && (n2 > 0 || err2 != io.EOF) {
+					t.Err = "Panic"
+					t.Panic = fmt.Sprintf("Read after end of stream returned (%d, %v)", n2, err2)
+				}
+			}
 			break
 		}
 	}
